@@ -113,18 +113,8 @@ Definition strat_eqb (a b : strat) : bool :=
   && Bool.eqb (s_changed a) (s_changed b) && Bool.eqb (s_all a) (s_all b).
 Definition is_default (s : strat) : bool := strat_eqb s default_strat.
 
-Definition rules_at (prev : option (hstep * obsT)) (st : hstep) (o : obsT) : list nat :=
-  match st with
-  | U _ => []
-  | C f inp =>
-    (* rule 6 (C10): the prompt was shown (some entity would be replaced) and the answer is not y: nothing may be written.
-       The harness reports code 8 when the tool printed its abort message; independent of that, with an answer other than y no
-       entity that already had a certificate may have been written *)
-    let '(res, w, es) := o in
-    let pes := match prev with Some (_, (_, _, p)) => p | None => [] end in
-    (if negb (consent inp) && existsb (fun a => bit 1 (fl pes a)) w then [6] else [])
-    ++ (if Nat.eqb res 3 then [8] else [])
-  | R s f =>
+(* the rules of a run with strategy [s] and fault [f], whoever started it (library call or command line) *)
+Definition run_rules (prev : option (hstep * obsT)) (s : strat) (f : option (nat * outcome)) (o : obsT) : list nat :=
     let '(res, w, es) := o in
     let pes := match prev with Some (_, (_, _, p)) => p | None => [] end in
     (if Nat.eqb res 1 && negb (forallb (fun a => bit 1 (fl es a) && bit 5 (fl es a)) w) then [1] else [])
@@ -147,7 +137,22 @@ Definition rules_at (prev : option (hstep * obsT)) (st : hstep) (o : obsT) : lis
         | _ => []
         end)
     (* rule 8 (C15, C20): whatever the directory holds - torn files included - a run ends with a result, not with a panic *)
-    ++ (if Nat.eqb res 3 then [8] else [])
+    ++ (if Nat.eqb res 3 then [8] else []).
+
+Definition rules_at (prev : option (hstep * obsT)) (st : hstep) (o : obsT) : list nat :=
+  match st with
+  | U _ => []
+  | C f inp =>
+    (* rule 6 (C10): the prompt was shown (some entity would be replaced) and the answer is not y: nothing may be written.
+       The harness reports code 8 when the tool printed its abort message; independent of that, with an answer other than y no
+       entity that already had a certificate may have been written *)
+    let '(res, w, es) := o in
+    let pes := match prev with Some (_, (_, _, p)) => p | None => [] end in
+    (if negb (consent inp) && existsb (fun a => bit 1 (fl pes a)) w then [6] else [])
+    (* a command-line run is a run: rules 1, 3, 4 and 8 apply to what it leaves behind (rule 2 is stated for library runs, the
+       command line repeats a run only after the prompt) *)
+    ++ filter (fun r => negb (Nat.eqb r 2)) (run_rules prev (strat_of_flags f) None o)
+  | R s f => run_rules prev s f o
   end.
 
 Fixpoint impl_rules (prev : option (hstep * obsT)) (ss : list hstep) (os : list obsT) (i : nat) : list (nat * nat) :=
